@@ -842,3 +842,274 @@ _RNG_METHODS['random'] = _rng_random
 _RNG_METHODS['random_sample'] = _rng_random
 RNG_ASSUMPTIONS += ['RandomState.random_integers(low, high, size) returns integers in the closed interval [low, high]',
                     'RandomState.random(size) returns floats in [0, 1)']
+
+
+# ------------------------------------------------------------------------------------------ libm transcendentals: monotone, nothing else
+# exp / log / log1p / expm1 are uninterpreted functions on the reals constrained ONLY by what libm guarantees up to rounding and what
+# a proof may honestly use: they are (strictly) increasing, exp > 0, log(1) = 0, exp(0) = 1.  There is NO inverse axiom: exp(log(x)) == x is
+# false in floating point (exp(log(10.0)) == 10.000000000000002), so a value computed through a transcendental round trip is provably inside
+# bounds only if it passes through a clip / min / max against those bounds afterwards.  Monotonicity is instantiated pairwise over the ground
+# applications of each function on the path (complete for a monotone function symbol; keeps every query quantifier-free).
+TRANS_ASSUMPTION = ('math/numpy exp, log, log1p, expm1 are uninterpreted strictly increasing functions (exp > 0, log 1 = 0, exp 0 = 1); '
+                    'no exact-inverse law is assumed (exp(log x) == x is false in floating point); overflow to inf is not modelled')
+log1p_f = z3.Function('log1p', z3.RealSort(), z3.RealSort())
+expm1_f = z3.Function('expm1', z3.RealSort(), z3.RealSort())
+_TRANS = {'log': ln, 'exp': exp, 'log1p': log1p_f, 'expm1': expm1_f}
+
+
+def trans_apply(run, name, t):
+    """f(t) for a ground real term t, with the pairwise monotonicity facts against the earlier applications of f on this path"""
+    f = _TRANS[name]
+    t = z3.simplify(t)
+    r = f(t)
+    log = run.__dict__.setdefault('trans_apps', {})
+    apps = log.setdefault(name, [])
+    for s in apps:
+        if s.eq(t):
+            return r
+    for s in apps:
+        run.assume(z3.And(z3.Implies(s < t, f(s) < r), z3.Implies(t < s, r < f(s))))
+    apps.append(t)
+    if name == 'exp':
+        run.assume(z3.And(r > 0, z3.Implies(t == 0, r == 1), z3.Implies(t > 0, r > 1), z3.Implies(t < 0, r < 1)))
+    elif name == 'log':
+        run.assume(z3.And(z3.Implies(t == 1, r == 0), z3.Implies(t > 1, r > 0), z3.Implies(z3.And(t > 0, t < 1), r < 0)))
+    elif name == 'expm1':
+        run.assume(z3.And(r > -1, z3.Implies(t == 0, r == 0), z3.Implies(t > 0, r > 0), z3.Implies(t < 0, r < 0)))
+    elif name == 'log1p':
+        run.assume(z3.And(z3.Implies(t == 0, r == 0), z3.Implies(t > 0, r > 0), z3.Implies(z3.And(t > -1, t < 0), r < 0)))
+    run.assumed.add(TRANS_ASSUMPTION)
+    return r
+
+
+def _py_transcendental(name, domain_lo=None):
+    """math.<name>(x): Python semantics (ValueError outside the domain, NaN propagates)"""
+    def fn(it, args, kw):
+        v = args[0]
+        if len(args) > 1:
+            raise Unsupported('math.%s with a base' % name)
+        if not z3.is_expr(v):
+            import math
+            try:
+                return getattr(math, name)(v)
+            except (ValueError, OverflowError) as e:
+                raise PyRaise(it.make_exc(type(e).__name__, [str(e)]))
+        x = xl(v)
+        if it.truth(xreal.is_nan(x)):
+            return xreal.nan
+        if it.truth(z3.Not(xreal.is_fin(x))):
+            raise Unsupported('math.%s of an infinite argument' % name)
+        if domain_lo is not None and it.truth(xreal.r(x) <= domain_lo):
+            raise PyRaise(it.make_exc('ValueError', ['math domain error']))
+        return xreal.fin(trans_apply(it.run, name, xreal.r(x)))
+    return fn
+
+
+EXTERNAL['math.log'] = Builtin('math.log', _py_transcendental('log', 0))
+EXTERNAL['math.exp'] = Builtin('math.exp', _py_transcendental('exp'))
+EXTERNAL['math.log1p'] = Builtin('math.log1p', _py_transcendental('log1p', -1))
+EXTERNAL['math.expm1'] = Builtin('math.expm1', _py_transcendental('expm1'))
+
+
+def _np_transcendental(name, domain_lo=None):
+    """np.<name>: numpy semantics (-inf / nan outside the domain, no exception); the np.log domain obligation is kept"""
+    def fn(it, args, kw):
+        def one(it_, x):
+            x = xl(x)
+            if domain_lo is None:
+                app = trans_apply(it_.run, name, xreal.r(x)) if _ground(x) else _TRANS[name](xreal.r(x))
+                return z3.If(xreal.is_fin(x), xreal.fin(app), z3.If(xreal.is_ninf(x), xreal.fin(z3.RealVal(0 if name == 'exp' else -1)), x))
+            pos = z3.And(xreal.is_fin(x), xreal.r(x) > domain_lo)
+            if name == 'log' and LOG_OBLIGATION[0] is not None:
+                it_.run.oblige(LOG_OBLIGATION[0], pos, 'np.log')
+            app = trans_apply(it_.run, name, xreal.r(x)) if _ground(x) else _TRANS[name](xreal.r(x))
+            edge = z3.And(xreal.is_fin(x), xreal.r(x) == domain_lo)
+            return z3.If(pos, xreal.fin(app), z3.If(edge, xreal.ninf, z3.If(xreal.is_pinf(x), xreal.pinf, xreal.nan)))
+        return _map(one, 'float')(it, [args[0]], {})
+    return fn
+
+
+def _ground(t):
+    """no bound / comprehension variable inside (facts about it may be asserted on the path)"""
+    seen, todo = set(), [t]
+    while todo:
+        x = todo.pop()
+        if x.get_id() in seen:
+            continue
+        seen.add(x.get_id())
+        if z3.is_var(x):
+            return False
+        if z3.is_const(x) and x.decl().kind() == z3.Z3_OP_UNINTERPRETED and ('!' in x.decl().name() and x.decl().name().split('!')[0] in ('q', 'cj', 'kj', 'j', 'i')):
+            return False
+        todo.extend(x.children())
+    return True
+
+
+for _pkg in ('numpy', 'jax.numpy'):
+    EXTERNAL[_pkg + '.log'] = Builtin('np.log', _np_transcendental('log', 0))
+    EXTERNAL[_pkg + '.exp'] = Builtin('np.exp', _np_transcendental('exp'))
+    EXTERNAL[_pkg + '.log1p'] = Builtin('np.log1p', _np_transcendental('log1p', -1))
+    EXTERNAL[_pkg + '.expm1'] = Builtin('np.expm1', _np_transcendental('expm1'))
+
+
+# ------------------------------------------------------------------------------------------ np.isclose / np.allclose (exact over the reals)
+def xisclose(a, b, rtol, atol, equal_nan=False):
+    """numpy: |a - b| <= atol + rtol * |b| for finite operands; equal infinities are close; NaN is close to nothing"""
+    a, b = xl(a), xl(b)
+    ra, rb = xreal.r(a), xreal.r(b)
+    ab = lambda t: z3.If(t >= 0, t, -t)
+    fin = z3.And(xreal.is_fin(a), xreal.is_fin(b))
+    close = ab(ra - rb) <= atol + rtol * ab(rb)
+    inf_eq = z3.And(z3.Not(xreal.is_fin(a)), z3.Not(xreal.is_nan(a)), a == b)
+    r = z3.Or(z3.And(fin, close), inf_eq)
+    if equal_nan:
+        r = z3.Or(r, z3.And(xreal.is_nan(a), xreal.is_nan(b)))
+    return r
+
+
+def _tol(v, default):
+    if v is None:
+        return z3.RealVal(default)
+    if isinstance(v, (int, float)):
+        return xreal.r(xreal.lit(v))
+    return xreal.r(xl(v))
+
+
+def _np_isclose(it, args, kw):
+    a, b = args[0], args[1]
+    rtol = _tol(kw.get('rtol', args[2] if len(args) > 2 else None), '1/100000')
+    atol = _tol(kw.get('atol', args[3] if len(args) > 3 else None), '1/100000000')
+    en = bool(kw.get('equal_nan', False))
+    arrs = [v for v in (a, b) if isinstance(v, NDArray)]
+    if not arrs:
+        if not z3.is_expr(a) and not z3.is_expr(b):
+            import math
+            fa, fb = float(a), float(b)
+            if math.isnan(fa) or math.isnan(fb):
+                return en and math.isnan(fa) and math.isnan(fb)
+            if math.isinf(fa) or math.isinf(fb):
+                return fa == fb
+            return abs(fa - fb) <= 1e-8 + 1e-5 * abs(fb) if (len(args) <= 2 and 'rtol' not in kw and 'atol' not in kw) else z3.simplify(xisclose(a, b, rtol, atol, en))
+        return xisclose(a, b, rtol, atol, en)
+    at = lambda v, i: v.at(*i) if isinstance(v, NDArray) else v
+    return NDArray(arrs[0].shape, 'bool', lambda *i: xisclose(at(a, i), at(b, i), rtol, atol, en))
+
+
+def _np_allclose(it, args, kw):
+    r = _np_isclose(it, args, kw)
+    if isinstance(r, NDArray):
+        return NP.reduce_bool(it, r, None, 'all')
+    return r
+
+
+for _pkg in ('numpy', 'jax.numpy'):
+    EXTERNAL[_pkg + '.isclose'] = Builtin('np.isclose', _np_isclose)
+    EXTERNAL[_pkg + '.allclose'] = Builtin('np.allclose', _np_allclose)
+
+
+# ------------------------------------------------------------------------------------------ dtype casts: float32 is a rounding function, not the identity
+# A Python float / np.float64 *is* the real it denotes (XReal), so a cast to float64 is the identity on floats and exact on the ints of the
+# model (|i| <= 2^53).  A cast to float32 (np.asarray(..., dtype=np.float32), .astype(np.float32), np.float32(x)) is the uninterpreted
+# rounding function r32: monotone, idempotent (is32(r32 x); is32 x => r32 x = x), exact on integers of magnitude <= 2^24, sign preserving,
+# and NOT the identity.  (Overflow of a finite double to float32 inf is not modelled.)
+R32_ASSUMPTION = ('a cast to float32 is an uninterpreted rounding function r32 (monotone, idempotent, exact on integers |i| <= 2^24, sign preserving; not '
+                  'the identity; overflow to inf not modelled); a cast to float64 is the identity on floats and exact on ints |i| <= 2^53')
+r32 = z3.Function('r32', z3.RealSort(), z3.RealSort())
+is32 = z3.Function('is_float32', z3.RealSort(), z3.BoolSort())
+TWO24 = 2 ** 24
+
+
+def r32_axioms(run):
+    if getattr(run, '_r32_axioms', False):
+        return
+    run._r32_axioms = True
+    run.assumed.add(R32_ASSUMPTION)
+    a, b = z3.Reals('a!r32 b!r32')
+    run.axiom(z3.ForAll([a], z3.And(is32(r32(a)),
+                                    z3.Implies(z3.And(z3.IsInt(a), a <= TWO24, a >= -TWO24), r32(a) == a),
+                                    z3.Implies(a >= 0, r32(a) >= 0), z3.Implies(a <= 0, r32(a) <= 0)), patterns=[r32(a)]))
+    run.axiom(z3.ForAll([a], z3.Implies(is32(a), r32(a) == a), patterns=[is32(a)]))
+    run.axiom(z3.ForAll([a, b], z3.Implies(a <= b, r32(a) <= r32(b)), patterns=[z3.MultiPattern(r32(a), r32(b))]))
+
+
+def cast32(it, x):
+    """float32(x) of a scalar (XReal / int / bool term or python number)"""
+    run = it.run
+    r32_axioms(run)
+    x = xl(x)
+    t = xreal.r(x)
+    out = z3.If(xreal.is_fin(x), xreal.fin(r32(t)), x)
+    if _ground(t) and not it.pure:
+        t = z3.simplify(t)
+        apps = run.__dict__.setdefault('r32_apps', [])
+        if not any(s.eq(t) for s in apps):
+            rt = r32(t)
+            run.assume(z3.And(is32(rt), z3.Implies(z3.And(z3.IsInt(t), t <= TWO24, t >= -TWO24), rt == t),
+                              z3.Implies(t >= 0, rt >= 0), z3.Implies(t <= 0, rt <= 0)))
+            for s in apps:
+                run.assume(z3.And(z3.Implies(s <= t, r32(s) <= rt), z3.Implies(t <= s, rt <= r32(s))))
+            apps.append(t)
+    return out
+
+
+def is_f32(d):
+    """does the dtype argument name float32?"""
+    if d is None:
+        return False
+    name = d.name if isinstance(d, (Builtin, E.BuiltinClass)) else d.dotted.split('.')[-1] if isinstance(d, E.ExtRef) else str(d)
+    return 'float32' in name or name in ('single', 'f4')
+
+
+def cast_array32(it, a):
+    f = a.fn
+    r = NDArray(a.shape, 'float', lambda *i: cast32(it, f(*i)))
+    return r
+
+
+def _wrap_np_array(prev):
+    def fn(it, args, kw):
+        d = kw.get('dtype', args[1] if len(args) > 1 else None)
+        r = prev(it, args, kw)
+        if is_f32(d):
+            if isinstance(r, NDArray):
+                return cast_array32(it, r)
+            if _is_num(r):
+                return cast32(it, r)
+        return r
+    return fn
+
+
+def _np_float32(it, args, kw):
+    v = args[0]
+    if isinstance(v, NDArray):
+        return cast_array32(it, v)
+    if _is_num(v):
+        return cast32(it, v)
+    raise Unsupported('np.float32(%r)' % (v,))
+
+
+for _pkg in ('numpy', 'jax.numpy'):
+    for _n in ('array', 'asarray'):
+        EXTERNAL[_pkg + '.' + _n] = Builtin('np.' + _n, _wrap_np_array(EXTERNAL[_pkg + '.' + _n].fn))
+    EXTERNAL[_pkg + '.float32'] = Builtin('float32', _np_float32)
+
+
+def _cast_getattr(it, v, a):
+    # scalar.item() / scalar.astype(dtype) on a numpy scalar (a z3 term here): the Python value / the cast value
+    if z3.is_expr(v) and v.sort() in (xreal.XReal, z3.IntSort(), z3.BoolSort()):
+        if a == 'item':
+            return Builtin('item', lambda it_, args, kw: v)
+        if a == 'astype':
+            return Builtin('astype', lambda it_, args, kw: cast32(it_, v) if is_f32(args[0] if args else kw.get('dtype')) else v)
+    if isinstance(v, NDArray) and a == 'astype':
+        def astype_(it_, args, kw):
+            d = args[0] if args else kw.get('dtype')
+            r = NP.astype(v, NP.dtype_arg(d))
+            return cast_array32(it_, r) if is_f32(d) else r
+        return Builtin('astype', astype_)
+    if isinstance(v, NDArray) and a == 'item' and all(NP.conc(s) == 1 for s in v.shape):
+        return Builtin('item', lambda it_, args, kw: v.at(*[0] * v.rank))
+    return M.MISSING
+
+
+NP._chain('value_getattr_hook', _cast_getattr)
